@@ -1126,6 +1126,20 @@ expand_manifests(string &expr, bool expand_undefined,
         }
       }
     }
+    else if (isdigit(expr[p]) ||
+             (expr[p] == '.' && p + 1 < expr.size() && isdigit(expr[p + 1]))) {
+      // A number.  Its letters (0x1F, 10u, 201103L, 1e+5) are part of it,
+      // not identifiers to be expanded or replaced by 0.
+      p++;
+      while (p < expr.size() &&
+             (isalnum(expr[p]) || expr[p] == '_' || expr[p] == '.' ||
+              (expr[p] == '\'' && p + 1 < expr.size() && isalnum(expr[p + 1])) ||
+              ((expr[p] == '+' || expr[p] == '-') &&
+               (expr[p - 1] == 'e' || expr[p - 1] == 'E' ||
+                expr[p - 1] == 'p' || expr[p - 1] == 'P')))) {
+        p++;
+      }
+    }
     else if (expr[p] == '\'' || expr[p] == '"') {
       // Skip the next part until we find a closing quotation mark.
       char quote = expr[p];
